@@ -1,7 +1,7 @@
 #!/bin/bash
 # usage: tools/mutant.sh <file-relative-to-repo> <sed-expr> <PID...>   -- apply a one-line mutant to a scratch copy and run checks
 set -e
-M=/tmp/mrepo; rm -rf $M; mkdir $M; (cd /repo && git archive HEAD | tar -x -C $M)
+M=/tmp/mrepo; rm -rf $M; mkdir $M; (cd /repo && git archive HEAD | tar -x -C $M; cp /repo/Cargo.lock $M/ 2>/dev/null)
 f=$1; e=$2; shift 2
 sed -i "$e" $M/$f
 (cd /repo && diff <(git show HEAD:$f) $M/$f | head -6) || true
